@@ -121,11 +121,17 @@ struct Case {
     path: PathSpec,
     xf: Xf,
     clip: bool,
+    /// the call is preceded by push_clip of a path that covers the whole surface (and popped
+    /// afterwards): nothing changes, unless something of that path leaks into the next one
+    pre: bool,
 }
 
 fn scene_of(c: &Case) -> Scene {
     let white = SrcSpec::Solid(0xffffffff);
     let mut ops = Vec::new();
+    if c.pre {
+        ops.push(Op::PushClip(PathSpec::rect(-5.5, -4.25, c.w as f32 + 11., c.w as f32 + 9.)));
+    }
     if c.xf != IDENT {
         ops.push(Op::SetTransform(c.xf));
     }
@@ -136,6 +142,9 @@ fn scene_of(c: &Case) -> Scene {
         ops.push(Op::PopClip);
     } else {
         ops.push(Op::Fill(c.path.clone(), white, Opts::default()));
+    }
+    if c.pre {
+        ops.push(Op::PopClip);
     }
     Scene { w: c.w, h: c.w, dst: Dst::Zero, ops }
 }
@@ -231,7 +240,7 @@ impl Check for C08 {
                 for eo in [false, true] {
                     for (ti, xf) in tf.iter().enumerate().take(if q { 1 } else { 3 }) {
                         let path = PathSpec { evenodd: eo, ops: vec![POp::M(a.0, a.1), POp::Q(b.0, b.1, c.0, c.1)] };
-                        account(run, s, l, &Case { w: 12, path, xf: *xf, clip: false }, s == 100 && c.0 == 9.6 && c.1 == 9.6 && !eo && ti == 0);
+                        account(run, s, l, &Case { w: 12, path, xf: *xf, clip: false, pre: false }, s == 100 && c.0 == 9.6 && c.1 == 9.6 && !eo && ti == 0);
                     }
                 }
             }
@@ -245,7 +254,7 @@ impl Check for C08 {
                 for d in gc.iter() {
                     for eo in [false, true] {
                         let path = PathSpec { evenodd: eo, ops: vec![POp::M(a.0, a.1), POp::C(b.0, b.1, c.0, c.1, d.0, d.1)] };
-                        account(run, 10_000 + s, l, &Case { w: 12, path, xf: IDENT, clip: false }, s == 7 && c.0 == 9.6 && d.1 == 2.7 && !eo);
+                        account(run, 10_000 + s, l, &Case { w: 12, path, xf: IDENT, clip: false, pre: false }, s == 7 && c.0 == 9.6 && d.1 == 2.7 && !eo);
                     }
                 }
                 if run.expired() {
@@ -277,7 +286,10 @@ impl Check for C08 {
                                         continue;
                                     }
                                     let path = PathSpec { evenodd: eo, ops: ops.clone() };
-                                    account(run, 20_000 + s, l, &Case { w: 12, path, xf: *xf, clip }, s == 4 && si == 1 && eo && ti == 1 && clip && d.0 == 6.1 && c.1 == 0.4);
+                                    account(run, 20_000 + s, l, &Case { w: 12, path: path.clone(), xf: *xf, clip, pre: false }, s == 4 && si == 1 && eo && ti == 1 && clip && d.0 == 6.1 && c.1 == 0.4);
+                                    if ti <= 1 && !eo {
+                                        account(run, 20_000 + s, l, &Case { w: 12, path, xf: *xf, clip, pre: true }, false);
+                                    }
                                 }
                             }
                         }
@@ -296,13 +308,13 @@ impl Check for C08 {
                 for c in &gs {
                     let (pa, pb, pc) = (sc(a), sc(b), sc(*c));
                     let path = PathSpec { evenodd: false, ops: vec![POp::M(pa.0, pa.1), POp::Q(pb.0, pb.1, pc.0, pc.1)] };
-                    account(run, 25_000 + s, l, &Case { w: 16, path, xf, clip: false }, false);
+                    account(run, 25_000 + s, l, &Case { w: 16, path, xf, clip: false, pre: false }, false);
                     for d in &gs {
                         let pd = sc(*d);
                         let path = PathSpec { evenodd: false, ops: vec![POp::M(pa.0, pa.1), POp::C(pb.0, pb.1, pc.0, pc.1, pd.0, pd.1)] };
-                        account(run, 25_000 + s, l, &Case { w: 16, path: path.clone(), xf, clip: false }, s == 10 && k == 1000.0 && c.0 == 6.1 && d.1 == 14.2);
+                        account(run, 25_000 + s, l, &Case { w: 16, path: path.clone(), xf, clip: false, pre: false }, s == 10 && k == 1000.0 && c.0 == 6.1 && d.1 == 14.2);
                         if !q || (s % 3 == 0) {
-                            account(run, 25_000 + s, l, &Case { w: 16, path, xf, clip: true }, false);
+                            account(run, 25_000 + s, l, &Case { w: 16, path, xf, clip: true, pre: false }, false);
                         }
                     }
                 }
@@ -332,7 +344,7 @@ impl Check for C08 {
                                     ops.push(POp::Z);
                                 }
                                 let path = PathSpec { evenodd: eo, ops };
-                                account(run, 30_000 + s, l, &Case { w: 12, path, xf: *xf, clip: false }, s == 13 && r == 5.0 && lead && !eo && ti == 0 && cx == 6.0);
+                                account(run, 30_000 + s, l, &Case { w: 12, path, xf: *xf, clip: false, pre: false }, s == 13 && r == 5.0 && lead && !eo && ti == 0 && cx == 6.0);
                             }
                         }
                     }
@@ -348,10 +360,10 @@ impl Check for C08 {
             let (a, b) = (glr[s / glr.len()], glr[s % glr.len()]);
             for c in glr.iter() {
                 let path = PathSpec { evenodd: false, ops: vec![POp::M(a.0 + 0.3, a.1 - 0.2), POp::Q(b.0, b.1, c.0 + 0.7, c.1 + 0.1)] };
-                account(run, 40_000 + s, l, &Case { w: 36, path, xf: IDENT, clip: false }, false);
+                account(run, 40_000 + s, l, &Case { w: 36, path, xf: IDENT, clip: false, pre: false }, false);
                 for d in glr.iter() {
                     let path = PathSpec { evenodd: false, ops: vec![POp::M(a.0 + 0.3, a.1 - 0.2), POp::C(b.0, b.1, c.0, c.1, d.0 + 0.7, d.1 + 0.1)] };
-                    account(run, 40_000 + s, l, &Case { w: 36, path, xf: IDENT, clip: false }, s == 3 && c.0 == 42. && d.1 == 18.);
+                    account(run, 40_000 + s, l, &Case { w: 36, path, xf: IDENT, clip: false, pre: false }, s == 3 && c.0 == 42. && d.1 == 18.);
                 }
             }
         });
@@ -378,15 +390,15 @@ impl Check for C08 {
                 let c = tr(f, cy);
                 for clip in [false, true] {
                     let path = PathSpec { evenodd: false, ops: vec![POp::M(a.0, a.1), POp::Q(c.0, c.1, e.0, e.1)] };
-                    account(run, 50_000 + s, l, &Case { w: 120, path, xf: IDENT, clip }, false);
+                    account(run, 50_000 + s, l, &Case { w: 120, path, xf: IDENT, clip, pre: false }, false);
                     let c2 = tr(f * 0.8, 120.0 - cy);
                     let path = PathSpec { evenodd: false, ops: vec![POp::M(a.0, a.1), POp::C(c.0, c.1, c2.0, c2.1, e.0, e.1)] };
-                    account(run, 50_000 + s, l, &Case { w: 120, path, xf: IDENT, clip }, false);
+                    account(run, 50_000 + s, l, &Case { w: 120, path, xf: IDENT, clip, pre: false }, false);
                 }
                 // the same quad from a path 100 times smaller under scale 100
                 let k = 0.01f32;
                 let path = PathSpec { evenodd: false, ops: vec![POp::M(a.0 * k, a.1 * k), POp::Q(c.0 * k, c.1 * k, e.0 * k, e.1 * k)] };
-                account(run, 50_000 + s, l, &Case { w: 120, path, xf: [100., 0., 0., 100., 0., 0.], clip: false }, false);
+                account(run, 50_000 + s, l, &Case { w: 120, path, xf: [100., 0., 0., 100., 0., 0.], clip: false, pre: false }, false);
             }
             // long gently bowed quads: chord f px, control point 1% of the chord off it, closed by
             // a far vertex so that the sliver between curve and chord decides pixels in the window
@@ -395,8 +407,8 @@ impl Check for C08 {
                 let (b0, b1, bc) = (tr(60.0 - f * 0.5, 40.3), tr(60.0 + f * 0.5, 40.3), tr(60.0, 40.3 + off * f));
                 let far_pt = tr(60.0, -3000.0);
                 let path = PathSpec { evenodd: false, ops: vec![POp::M(b0.0, b0.1), POp::Q(bc.0, bc.1, b1.0, b1.1), POp::L(far_pt.0, far_pt.1), POp::Z] };
-                account(run, 50_000 + s, l, &Case { w: 120, path: path.clone(), xf: IDENT, clip: false }, false);
-                account(run, 50_000 + s, l, &Case { w: 120, path, xf: IDENT, clip: true }, false);
+                account(run, 50_000 + s, l, &Case { w: 120, path: path.clone(), xf: IDENT, clip: false, pre: false }, false);
+                account(run, 50_000 + s, l, &Case { w: 120, path, xf: IDENT, clip: true, pre: false }, false);
             }
         });
     }
@@ -404,16 +416,18 @@ impl Check for C08 {
     fn replay(&self, case: &str) -> Result<Option<Violation>, String> {
         let scene = parse_scene(case)?;
         // recover the case from the scene
+        let big = PathSpec::rect(-5.5, -4.25, scene.w as f32 + 11., scene.w as f32 + 9.).to_string();
+        let pre = matches!(scene.ops.first(), Some(Op::PushClip(p)) if p.to_string() == big) && scene.ops.len() > 2;
         let mut xf = IDENT;
-        for op in &scene.ops {
+        for op in scene.ops.iter().skip(if pre { 1 } else { 0 }) {
             match op {
                 Op::SetTransform(t) => {
                     if xf == IDENT {
                         xf = *t
                     }
                 }
-                Op::PushClip(p) => return Ok(eval(&Case { w: scene.w, path: p.clone(), xf, clip: true }).err()),
-                Op::Fill(p, _, _) => return Ok(eval(&Case { w: scene.w, path: p.clone(), xf, clip: false }).err()),
+                Op::PushClip(p) => return Ok(eval(&Case { w: scene.w, path: p.clone(), xf, clip: true, pre }).err()),
+                Op::Fill(p, _, _) => return Ok(eval(&Case { w: scene.w, path: p.clone(), xf, clip: false, pre }).err()),
                 _ => {}
             }
         }
